@@ -196,31 +196,15 @@ def run(ctx):
             R.ok('c', 'R5', 'KeyRegWrapper::register: returned party id <- cold key hash', '', rf.loc())
         else:
             R.violation('c', 'R5', 'KeyRegWrapper::register: returned party id <- cold key hash', 'register:returned-id', 'returned id may derive from the claimed party id', rf.loc())
-        # (b) what is signed / with which certificate
-        vk = [c for c in body.calls() if any(glob_match('*KeyRegWrapper::verify_kes_signature', n) for n in c.names())]
-        for c in vk:
-            o_msg = fn_origins(rf, c.args[1], True)
-            o_sig = fn_origins(rf, c.args[2], True)
-            o_cert = fn_origins(rf, c.args[3], True)
-            o_ev = fn_origins(rf, c.args[4], True)
-            ok = has(o_msg, 'pty:SignerRegistrationParameters.verification_key_for_concatenation') and \
-                has(o_sig, 'pty:SignerRegistrationParameters.verification_key_signature_for_concatenation') and \
-                has(o_cert, 'pty:SignerRegistrationParameters.operational_certificate*') and has(o_ev, 'pty:SignerRegistrationParameters.kes_evolutions')
-            inst = 'KeyRegWrapper::register: KES check over (this vk, this signature, this opcert, announced evolutions)'
-            if ok:
-                R.ok('b', 'R5', inst, '', rf.loc())
-            else:
-                R.violation('b', 'R5', inst, 'register:kes-args', 'msg %s sig %s cert %s ev %s' % (
-                    sorted(o_msg)[:3], sorted(o_sig)[:3], sorted(o_cert)[:3], sorted(o_ev)[:3]), rf.loc())
-        if not vk:
-            R.violation('b', 'R5', 'KeyRegWrapper::register: KES check call exists', 'register:kes-call', 'no verify_kes_signature call', rf.loc())
-        else:
-            R.ok('b', 'R5', 'KeyRegWrapper::register: KES check call exists', '%d site(s)' % len(vk), rf.loc())
-        vks = ctx.try_fn('b', '*KeyRegWrapper::verify_kes_signature')
-        if vks is not None:
-            ctx.r1('b', '*KeyRegWrapper::verify_kes_signature', Sink('KesVerifier::verify', kes_trait, 'ok'))
-            for i, req in ((1, 'p#2'), (3, 'p#4'), (4, 'p#5'), (2, 'p#3')):
-                ctx.arg_origin('b', '*KeyRegWrapper::verify_kes_signature', kes_trait, i, require=[req], desc='<- %s' % req)
+        # (b) what is signed / with which certificate: every KES verification anywhere under `register` (whatever private helper it
+        # sits in) gets this registration's key as the message, its signature, its operational certificate and the announced evolutions
+        P = 'pty:SignerRegistrationParameters.'
+        for i, (req, what) in enumerate(((P + 'verification_key_for_concatenation', 'message <- this verification key'),
+                                         (P + 'verification_key_signature_for_concatenation', 'signature <- this key\'s KES signature'),
+                                         (P + 'operational_certificate*', 'certificate <- this operational certificate'),
+                                         (P + 'kes_evolutions', 'evolutions <- the announced evolutions')), start=1):
+            ctx.sink_arg('b', REG, kes_trait, i, require=[req], desc='(%s)' % what, key='register:kes-args:%d' % i)
+        ctx.r1('b', REG, Sink('KesVerifier::verify', kes_trait, 'ok'), label='the KES check gates registration')
         # the party id is computed from the same opcert that was KES-checked
         cp = [c for c in body.calls() if any(glob_match('*OpCert::compute_protocol_party_id', n) for n in c.names())]
         if cp and all(has(fn_origins(rf, c.args[0], True), 'pty:SignerRegistrationParameters.operational_certificate*') for c in cp):
